@@ -688,6 +688,21 @@ def split_keywords(schema):
     return kw, nk
 
 
+NEGATE_VARIANT = ["asFound"]
+
+
+def detect_negate_variant(chk):
+    """Witness of FC02a: numeric exclusiveMinimum without minimum."""
+    schema = {"type": "integer", "exclusiveMinimum": 3}
+    ctx = M.MutationContext(keywords=schema, non_keywords={}, location="body", media_type="application/json")
+    try:
+        M.negate_constraints(ctx, FakeDraw(Chooser()), copy.deepcopy(schema))
+        NEGATE_VARIANT[0] = "repaired"
+    except KeyError:
+        NEGATE_VARIANT[0] = "asFound"
+    chk.variants["negate_constraints-dependency"] = NEGATE_VARIANT[0]
+
+
 def lean_request(frame):
     """the driver request that replays one recorded call on the Lean model (None: not modelled)"""
     name, before, ev = frame["name"], frame["before"], frame["events"]
@@ -701,7 +716,7 @@ def lean_request(frame):
     if name == "negate_constraints":
         cand = sampled[0] if sampled else ""
         enabled = sorted({e[2] for e in ev if e[0] == "flag" and e[1] == "keywords" and e[3]})
-        return "negate", {"schema": before, "ctx": frame["ctx"], "canNeg": bool(can_negate(before)),
+        return "negate", {"variant": NEGATE_VARIANT[0], "schema": before, "ctx": frame["ctx"], "canNeg": bool(can_negate(before)),
                           "candidate": cand if isinstance(cand, str) else "", "enabled": enabled}
     if name == "change_properties":
         props_after = frame["after"].get("properties") if isinstance(frame["after"].get("properties"), dict) else {}
@@ -1182,6 +1197,7 @@ def run(chk):
     warnings.simplefilter("ignore")
     G.selfcheck(chk, chk.budget(150, 1500))
     variant = detect_variants(chk)
+    detect_negate_variant(chk)
     chk.assumptions += [
         "hypothesis-jsonschema: from_schema(s) yields only instances valid for s (contract `drawOK`, positive side)",
         "can_negate = (canonicalish(s) != {}) enters the model as an oracle evaluated by the real library",
